@@ -1765,7 +1765,7 @@ func c16Table() []*c16Case {
 	}
 	allGood := func() []c16File { return []c16File{good(0), good(1), good(2)} }
 	// A missing path at each argument position.
-	for _, m := range []string{"tree/gone.go", "nowhere", "./tree/none/..."} {
+	for _, m := range []string{"tree/gone.go", "nowhere", "./tree/none/...", "tree/gone[1].go", "tree/what?.go"} {
 		for _, base := range argStyles {
 			for at := 0; at <= len(base); at++ {
 				args := append(append(append([]string{}, base[:at]...), m), base[at:]...)
